@@ -399,8 +399,9 @@ __CPROVER_ensures(EP_STS_DRAIN_POST(__CPROVER_return_value, -EPIPE))
 /* the auxiliary buffer: a well-formed ByteBuffer whose storage is distinct
  * from the endpoints and the ghost state.  sts_some_aux / sts_atmost_aux use
  * its window data[offset .. used) as scratch space and leave the buffer's
- * fields alone; sts_n_aux / sts_drain_aux first rewind it (the window moves
- * to data[0 .. used - offset)) and never touch data[used .. size). */
+ * fields alone; sts_n_aux / sts_drain_aux may rewind it first (the window
+ * moves to data[0 .. used - offset)); the designated region of these two is
+ * data[0 .. used), they never touch data[used .. size). */
 #define EP_AUX_OK(b, source, sink) \
   (__CPROVER_rw_ok((b), sizeof(ByteBuffer)) && (b)->data != NULL && (b)->size >= 1u \
    && (b)->size <= (size_t)SSIZE_MAX && (b)->offset <= (b)->used && (b)->used <= (b)->size \
@@ -416,6 +417,10 @@ __CPROVER_ensures(EP_STS_DRAIN_POST(__CPROVER_return_value, -EPIPE))
   IMPLIES(g_k < (b)->size && !(g_k >= (lo) && g_k - (lo) < (w)), \
     (b)->data[EP_CL(g_k, (b)->size)] == __CPROVER_old((b)->data[EP_CL(g_k, (b)->size)]))
 #define EP_WINDOW_O(b) (__CPROVER_old((b)->used) - __CPROVER_old((b)->offset))
+/* the buffer stays well-formed, its window keeps its size and does not move
+ * towards the end (sts_n_aux / sts_drain_aux may rewind the buffer) */
+#define EP_AUX_WINDOW_KEPT(b) ((b)->offset <= (b)->used && (b)->used <= (b)->size \
+   && (b)->used - (b)->offset == EP_WINDOW_O(b) && (b)->used <= __CPROVER_old((b)->used))
 
 /* one transfer of at most w octets through the window.  ret >= 1: that many
  * octets taken and delivered.  Negative: the source driver's value (nothing
@@ -474,14 +479,14 @@ ssize_t sts_n_aux(Source *source, Sink *sink, ByteBuffer *b, const size_t n)
 __CPROVER_requires(EP_SOURCE_OK(source) && EP_SINK_OK(sink) && EP_AUX_OK(b, source, sink))
 __CPROVER_assigns(EP_PIPE_ASSIGNS;
     n > 0: b->used; n > 0: b->offset;
-    n > 0 && b->used > b->offset: __CPROVER_object_upto(b->data, b->used - b->offset))
+    n > 0 && b->used > 0: __CPROVER_object_upto(b->data, b->used))
 __CPROVER_ensures(EP_STS_N_AUX_POST_OK(n, __CPROVER_return_value))
 __CPROVER_ensures(EP_STS_N_AUX_POST_PREFIX(n, EP_WINDOW_O(b), __CPROVER_return_value))
 __CPROVER_ensures(EP_STS_N_AUX_POST_CAUSE(n, __CPROVER_return_value))
 __CPROVER_ensures(b->data == __CPROVER_old(b->data) && b->size == __CPROVER_old(b->size))
 __CPROVER_ensures(IMPLIES(n == 0, EP_AUX_FIELDS_SAME(b)))
-__CPROVER_ensures(IMPLIES(n > 0, b->offset == 0 && b->used == EP_WINDOW_O(b)))
-__CPROVER_ensures(EP_AUX_CELL_SAME(b, 0, EP_WINDOW_O(b)))
+__CPROVER_ensures(EP_AUX_WINDOW_KEPT(b))
+__CPROVER_ensures(EP_AUX_CELL_SAME(b, 0, __CPROVER_old(b->used)))
 ;
 
 /* runs until a transfer fails; what reached the sink is a prefix.  When it
@@ -499,11 +504,11 @@ __CPROVER_ensures(EP_AUX_CELL_SAME(b, 0, EP_WINDOW_O(b)))
 ssize_t sts_drain_aux(Source *source, Sink *sink, ByteBuffer *b)
 __CPROVER_requires(EP_SOURCE_OK(source) && EP_SINK_OK(sink) && EP_AUX_OK(b, source, sink))
 __CPROVER_assigns(EP_PIPE_ASSIGNS; b->used; b->offset;
-    b->used > b->offset: __CPROVER_object_upto(b->data, b->used - b->offset))
+    b->used > 0: __CPROVER_object_upto(b->data, b->used))
 __CPROVER_ensures(EP_STS_DRAIN_AUX_POST(source, EP_WINDOW_O(b), __CPROVER_return_value))
 __CPROVER_ensures(b->data == __CPROVER_old(b->data) && b->size == __CPROVER_old(b->size))
-__CPROVER_ensures(b->offset == 0 && b->used == EP_WINDOW_O(b))
-__CPROVER_ensures(EP_AUX_CELL_SAME(b, 0, EP_WINDOW_O(b)))
+__CPROVER_ensures(EP_AUX_WINDOW_KEPT(b))
+__CPROVER_ensures(EP_AUX_CELL_SAME(b, 0, __CPROVER_old(b->used)))
 ;
 
 /* ------------------------------------------------------------------------ */
